@@ -313,7 +313,7 @@ type c19Field struct {
 	Rules  map[string]any   // for the driver
 	Probes []map[string]any // driver encoding
 	// facts used to name a divergence class
-	hasExclusive, hasBounds, hasConstIn, widened, retyped, yaml11, zeroMax, wraps, beyond53, emptyConst bool
+	hasExclusive, hasBounds, hasConstIn, widened, retyped, yaml11, zeroMax, wraps, beyond53, emptyConst, nullable bool
 }
 
 func c19U(x uint64) *uint64          { return &x }
@@ -517,6 +517,11 @@ func c19GenNumeric(r *gen.R, name string, num int32) *c19Field {
 	fd.F = &ir.Field{Name: name, Number: num, Kind: k, Rules: rules}
 	if fd.Card == "optional" {
 		fd.F.Card = "optional"
+		if r.P(1, 2) {
+			// nullable: the schema becomes `type: [T, "null"]`; every rule keyword must survive
+			fd.F.Ann.Nullable = c19Bo(true)
+			fd.nullable = true
+		}
 	}
 	if fd.I64N {
 		fd.F.Ann.Int64Enc = "NUMBER"
@@ -637,6 +642,10 @@ func c19GenString(r *gen.R, name string, num int32, allowEmptyConst bool) *c19Fi
 	fd.F = &ir.Field{Name: name, Number: num, Kind: "string", Rules: rules}
 	if fd.Card == "optional" {
 		fd.F.Card = "optional"
+		if r.P(1, 2) {
+			fd.F.Ann.Nullable = c19Bo(true)
+			fd.nullable = true
+		}
 	}
 	return fd
 }
@@ -1022,7 +1031,7 @@ func C19(c *Ctx) error {
 			}
 			jobs = append(jobs, j)
 			card := fd.Card
-			ops = append(ops, map[string]any{"op": "c19_case", "kind": fd.Kind, "card": card, "int64_number": fd.I64N,
+			ops = append(ops, map[string]any{"op": "c19_case", "kind": fd.Kind, "card": card, "int64_number": fd.I64N, "nullable": fd.nullable,
 				"rules": fd.Rules, "probes": fd.Probes, "real_schema": j.real, "json_format": m.Param == "format=json"})
 		}
 	}
